@@ -29,6 +29,17 @@ def run(ctx):
         progs = progs[:len(NULLABLE)] + ctx.rng.sample(progs[len(NULLABLE):], 250)
     texts = list(all_texts("a\n", 3 if quick else 4))
     extra = [{"src": "find all " + p, "texts": texts} for p in progs]
+    # loops over nullable bodies at every CALL DEPTH and with every kind of loop (named, bounded, fewest): the zero-width guard belongs to the loop
+    # instance, which is identified by loop id and call depth - inside inline subroutines, stored patterns, nested calls
+    ftexts = ["", "a", "ab", "abba", "aab", "b", "ac", "a\n"]
+    for body in (NULLABLE[:12] if quick else NULLABLE):
+        for lp in ("at least 0 (%s) named r", "between 0 and 3 (%s) named r", "at least 0 (%s) fewest named r 'c'", "at least 0 (%s)", "at least 1 (%s) named r"):
+            loop = lp % body
+            extra.append({"src": "find all {'a' %s} = s" % loop, "texts": ftexts})
+            extra.append({"src": "set p to pattern 'a' %s\nfind all p" % loop, "texts": ftexts})
+            if not quick or body in NULLABLE[:4]:
+                extra.append({"src": "find all {'a' {%s} = t maybe t} = s maybe s" % loop, "texts": ftexts})
+                extra.append({"src": "set p to pattern %s\nset q to pattern 'a' p\nfind all q p" % loop, "texts": ftexts})
     cases, gres, dis, stats = run_generated(ctx, 100 if quick else 15000, extra=extra, spec=False)
     ctx.coverage["rule"] = ("all programs up to nesting depth %d over nullable bodies (maybe, at least 0, anchors, empty group, negated anchors, fewest variants) "
                             "x all texts over {a,\\n} up to length %d; the implementation must return within the budget whenever the model does; "
